@@ -71,6 +71,10 @@ def reparse_error(ctx, case, fmt, step, cfg, text, ex):
 def run_case(ctx, case):
     from jsonargparse import ArgumentError
 
+    if case.get("kind") == "kinds":
+        from . import _kinds
+
+        return _kinds.run(ctx, case, "C01")
     for k in set().union(*[G.kinds_in(s) for s in P.all_shapes(case["recipe"]).values()]):
         ctx.cls("kind:" + k)
     p, cfgs = _rt.accepted_configs(ctx, case)
@@ -158,7 +162,12 @@ def plan(tier):
 
 
 def run_shard(spec, ctx):
-    run_given(ctx, _rt.case_strategy(spec["depth"]), body(ctx), spec["n"])
+    from hypothesis import strategies as st
+
+    from . import _kinds
+
+    main = _rt.case_strategy(spec["depth"])
+    run_given(ctx, st.integers(0, 5).flatmap(lambda i: _kinds.case_strategy() if i == 0 else main), body(ctx), spec["n"])
 
 
 def health(tier, evaluations, nontrivial, classes):
